@@ -32,4 +32,13 @@ def heights : List Range → List Nat
   | [] => []
   | r :: rs => (List.range' r.b (r.e + 1 - r.b)) ++ heights rs
 
+/-- `SyncCFTBlocks` / `SyncBFTBlocks` when every range is eventually answered by some peer with the blocks it asked for
+(`fetchBlocks` returns the blocks `begin..end` of the serving peer's chain): one answered request per range, the blocks of
+each answer handed on in order, and a `none` (the Go `nil` block) that ends the stream.  `none` for the whole call = the
+"end height is less than the start height" error, nothing is requested. -/
+def syncStream (begin end_ fetch : Nat) : Option (List Range × List (Option Nat)) :=
+  match calcRange begin end_ fetch with
+  | none => none
+  | some rs => some (rs, (heights rs).map some ++ [none])
+
 end Bxh.Sync
